@@ -8,10 +8,10 @@ package harness
 
 import (
 	"crypto/sha1"
-	"flag"
 	"encoding/base64"
 	"encoding/hex"
 	"encoding/json"
+	"flag"
 	"fmt"
 	"hash/fnv"
 	"os"
@@ -126,8 +126,14 @@ func Seed() int64 {
 }
 
 // Shard is this process's shard index; Shards the shard count.
-func Shard() int  { v, _ := strconv.Atoi(os.Getenv("VERIF_SHARD")); return v }
-func Shards() int { v, _ := strconv.Atoi(os.Getenv("VERIF_SHARDS")); if v < 1 { v = 1 }; return v }
+func Shard() int { v, _ := strconv.Atoi(os.Getenv("VERIF_SHARD")); return v }
+func Shards() int {
+	v, _ := strconv.Atoi(os.Getenv("VERIF_SHARDS"))
+	if v < 1 {
+		v = 1
+	}
+	return v
+}
 
 // Scale returns q in the quick tier and t in the thorough tier. VERIF_SCALE
 // (a float) multiplies both, for development.
@@ -320,9 +326,10 @@ func Main(m *testing.M, property string) {
 // rapid integration
 
 type failure struct {
-	msg   string
-	input []byte
-	meta  map[string]string
+	clause string
+	msg    string
+	input  []byte
+	meta   map[string]string
 }
 
 var (
@@ -335,7 +342,7 @@ var (
 func Fail(t *rapid.T, check string, input []byte, meta map[string]string, format string, args ...interface{}) {
 	msg := fmt.Sprintf(format, args...)
 	lastFailMu.Lock()
-	lastFail[check] = &failure{msg: msg, input: append([]byte{}, input...), meta: meta}
+	lastFail["*"] = &failure{clause: check, msg: msg, input: append([]byte{}, input...), meta: meta}
 	lastFailMu.Unlock()
 	t.Fatalf("%s", msg)
 }
@@ -353,14 +360,21 @@ func Check(t *testing.T, check string, quickCases, thoroughCases int, prop func(
 	seed := uint64(1) + uint64(Seed())*64 + uint64(Shard()) + (Hash64([]byte(check))%9973)*1000003
 	_ = flag.Set("rapid.checks", strconv.Itoa(per))
 	_ = flag.Set("rapid.seed", strconv.FormatUint(seed, 10))
+	lastFailMu.Lock()
+	delete(lastFail, "*")
+	lastFailMu.Unlock()
 	defer func() {
 		lastFailMu.Lock()
-		f := lastFail[check]
-		delete(lastFail, check)
+		f := lastFail["*"]
+		delete(lastFail, "*")
 		lastFailMu.Unlock()
 		if t.Failed() {
 			if f != nil {
-				Report(check, f.msg, f.input, f.meta)
+				name := check
+				if f.clause != "" && f.clause != check {
+					name = check + "/" + f.clause
+				}
+				Report(name, f.msg, f.input, f.meta)
 			} else {
 				Report(check, "rapid run failed without a recorded case (panic inside the property or generator?) — see test log", nil, nil)
 			}
